@@ -10,12 +10,13 @@ from collections import OrderedDict
 
 from .. import coqbuild, irtools as T
 from ..common import GLOBAL_TRUSTED_BASE
+from .. import fatie
 from ..model import call_many
 from ..pool import guarded, run_cases
 
 THEOREMS = ["C12_outside_unchanged", "C12_created_equiv", "C12_class_target_equiv", "C12_idempotent_partial",
             "C12_function_target_refuted", "C12_append_refuted", "C12_cmp_ast_only_equal", "C12_cmp_ast_reflexive",
-            "C12_cmp_ast_lists_same_length", "C12_cmp_ast_prefix_example"]
+            "C12_cmp_ast_lists_same_length", "C12_cmp_ast_prefix_example", "C12_target_lookup", "C12_target_lookup_refuted"]
 KINDS = ("class", "function", "argparse_function")
 NAMES = {"class": "ConfigClass", "function": "train", "argparse_function": "set_cli_args"}
 BEFORE = ["import os\n\nCONSTANT_A = 1\n", "", "def helper_before(q, r=2):\n    return q\n", "class Unrelated(object):\n    z: int = 1\n",
@@ -391,6 +392,18 @@ def run(ctx):
     status = coqbuild.prove("C12", THEOREMS)
     agg, items, corr, cases = collect(ctx, 60 if ctx.quick else 2400)
     n_cmp, cmp_bad, cmp_dist = cmp_correspondence(ctx.rng, 300 if ctx.quick else 6000)
+    # the target lookup (find_in_ast [name] after annotate_ancestry) against Model/FindAst.v, on the listed files as generated
+    look = []
+    for c in cases[: (40 if ctx.quick else 600)]:
+        for k in KINDS:
+            try:
+                src = c["before"][k] + ("\n\n" if c["before"][k] else "") + emit_src(k, c["irs"][k]) + "\n" + c["after"][k].replace("{name}", NAMES[k])
+            except Exception:  # noqa
+                continue
+            ss = [[NAMES[k]]] + fatie.searches(ctx.rng, src, ["helper_before", "helper_after", "q", "k", "z"])
+            look += [(src, s_) for s_ in ss[:1] + ctx.rng.sample(ss[1:], min(4, len(ss) - 1))]
+    n_look, look_kinds, look_bad = fatie.compare(look)
+    corr += look_bad[:3]
     for b in cmp_bad[:3]:
         # a disagreement is itself a concrete input on which cmp_ast misjudges equality
         ctx.item("C12/cmp_ast/" + ("equal-trees-reported-different" if b["model"] else "different-trees-reported-equal") + "/" + b["how"],
@@ -419,7 +432,8 @@ def run(ctx):
                 "cdd sync; non-trivial = all runs completed",
         "completed": agg["ran"], "target_files_compared_with_model": agg["files"], "model_disagreements": len(corr),
         "cmp_ast_pairs_compared_with_model": n_cmp, "cmp_ast_disagreements": len(cmp_bad), "cmp_ast_pair_kinds": cmp_dist,
-        "traces_validated_against_impl": agg["files"],
+        "target_lookups_compared_with_model": n_look, "lookup_result_kinds": look_kinds,
+        "traces_validated_against_impl": agg["files"] + n_look,
         "samples": [{"truth": cases[0]["truth"], "states": cases[0]["states"], "runs": cases[0]["runs"]}],
         "build": {k: status[k] for k in ("build_s", "forbidden")},
     }
